@@ -288,7 +288,14 @@ pub fn run(case: &Case, ctx: &mut Ctx) -> CaseOutcome {
         c.stdin(std::process::Stdio::null())
             .stdout(std::process::Stdio::null())
             .stderr(std::process::Stdio::null());
-        let code = c.status().ok().and_then(|s| s.code()).unwrap_or(-1);
+        let code = match status_with_timeout(&mut c, 60) {
+            Ok(Some(code)) => code,
+            Ok(None) => {
+                out.violate("C17", "cli-hang", "the txtpp binary did not terminate within 60 s".to_string());
+                return out;
+            }
+            Err(_) => -1,
+        };
         let after = tree::snapshot(&ctx.env.root);
         out.digest = mix(&[tree::snap_hash(&after), code as u64]);
         out.recorded = Some(case.clone());
